@@ -645,8 +645,8 @@ class RZILTransformer(Transformer):
             assign.set_src(
                 BitOp(
                     f"op_SHIFTR",
-                    self.promotion_cast(assign.dest),
-                    self.promotion_cast(assign.src),
+                    a,
+                    b,
                     BitOperationType.RSHIFT,
                 )
             )
@@ -654,8 +654,8 @@ class RZILTransformer(Transformer):
             assign.set_src(
                 BitOp(
                     f"op_SHIFTL",
-                    self.promotion_cast(assign.dest),
-                    self.promotion_cast(assign.src),
+                    a,
+                    b,
                     BitOperationType.LSHIFT,
                 )
             )
